@@ -37,6 +37,7 @@ class AstModel:
         self.value_classes = [c for c in self.classes if c not in self.node_classes and c not in ("Absent",) and self.classes[c]]
         self.all_fields = sorted({f for c in self.node_classes + self.value_classes for f in self.classes[c]})
         self.position_fields = {"line", "column"}
+        self._cp = None
 
     def _all_bases(self, c: str) -> set[str]:
         out, stack = set(), list(self.bases.get(c, []))
@@ -47,7 +48,50 @@ class AstModel:
                 stack.extend(self.bases.get(b, []))
         return out
 
-    def ast_writes(self, fi: FuncInfo) -> Iterator[tuple[ast.AST, str, str]]:
+    def _non_ast_typed(self, fi: FuncInfo, name: str, res) -> bool:
+        """the local `name` is known (constructor call / annotation, here or in the enclosing function) to be an
+        instance of a repository class that is not a document AST class"""
+        if res is None:
+            return False
+        cur: FuncInfo | None = fi
+        while cur is not None:
+            ci = res.local_types(cur).get(name)
+            if ci is not None:
+                return ci.name not in self.classes
+            cur = cur.module.functions.get(cur.parent_func) if cur.parent_func else None
+        return False
+
+    CONTAINER_FIELDS = {"children", "sections", "meta", "items", "pairs", "leading_comments", "trailing_comments", "tokens"}
+
+    def container_params(self, res) -> dict[str, dict[str, str]]:
+        """fqn -> {param name: field} for parameters that some call site binds to `<obj>.<container field>` of a document"""
+        if getattr(self, "_cp", None) is not None:
+            return self._cp
+        cp: dict[str, dict[str, str]] = {}
+        if res is not None:
+            for fi in res.p.all_functions():
+                for n in walk_no_nested(fi.node):
+                    if not isinstance(n, ast.Call):
+                        continue
+                    cand = [(i, a) for i, a in enumerate(n.args) if isinstance(a, ast.Attribute) and a.attr in self.CONTAINER_FIELDS]
+                    candk = [(k.arg, k.value) for k in n.keywords if k.arg and isinstance(k.value, ast.Attribute) and k.value.attr in self.CONTAINER_FIELDS]
+                    if not cand and not candk:
+                        continue
+                    for c in res.resolve_call(fi, n):
+                        if c.kind != "repo" or c.func is None:
+                            continue
+                        a = c.func.node.args
+                        ps = [x.arg for x in list(a.posonlyargs) + list(a.args)]
+                        off = 1 if ps and ps[0] in ("self", "cls") else 0
+                        for i, arg in cand:
+                            if i + off < len(ps):
+                                cp.setdefault(c.func.fqn, {})[ps[i + off]] = arg.attr
+                        for name, arg in candk:
+                            cp.setdefault(c.func.fqn, {})[name] = arg.attr
+        self._cp = cp
+        return cp
+
+    def ast_writes(self, fi: FuncInfo, res=None) -> Iterator[tuple[ast.AST, str, str]]:
         """(node, kind, field) for each store / mutating call that can modify a document AST object in fi.
         Receivers called `self` inside classes that are not AST classes are not AST objects."""
         fields = set(self.all_fields)
@@ -59,9 +103,23 @@ class AstModel:
                 root = root.value
             if isinstance(root, ast.Name) and root.id in ("self", "cls") and not self_is_ast:
                 return False
+            if isinstance(root, ast.Name) and self._non_ast_typed(fi, root.id, res):
+                return False
             return True
 
+        # names that alias a document container: parameters bound to `<obj>.<field>` at a call site, locals bound from one
+        aliases: dict[str, str] = dict(self.container_params(res).get(fi.fqn, {})) if res is not None else {}
         for n in walk_no_nested(fi.node):
+            if isinstance(n, ast.Assign) and len(n.targets) == 1 and isinstance(n.targets[0], ast.Name) and isinstance(n.value, ast.Attribute) and n.value.attr in self.CONTAINER_FIELDS and recv_ok(n.value.value):
+                aliases[n.targets[0].id] = n.value.attr
+        for n in walk_no_nested(fi.node):
+            if aliases:
+                if isinstance(n, ast.Subscript) and isinstance(n.ctx, (ast.Store, ast.Del)) and isinstance(n.value, ast.Name) and n.value.id in aliases:
+                    yield n, "item-store (through alias)", aliases[n.value.id]
+                elif isinstance(n, ast.Call) and isinstance(n.func, ast.Attribute) and n.func.attr in MUTATORS and isinstance(n.func.value, ast.Name) and n.func.value.id in aliases:
+                    yield n, f"mutator .{n.func.attr}() (through alias)", aliases[n.func.value.id]
+            if isinstance(getattr(n, "_parent", None), ast.AugAssign) and getattr(n, "_parent").target is n:
+                continue  # reported once, as the augmented store
             if isinstance(n, ast.Attribute) and isinstance(n.ctx, (ast.Store, ast.Del)) and n.attr in fields and recv_ok(n.value):
                 yield n, "store", n.attr
             elif isinstance(n, ast.Subscript) and isinstance(n.ctx, (ast.Store, ast.Del)):
